@@ -30,3 +30,9 @@ package common
 //@ func UnwrapArrayTypeString props C06,C14
 //@ ensures !strings.HasPrefix(result, "[]") && len(result) <= len(value)
 //@ loop 0 invariant len(resultValue) <= len(value)
+
+//@ func SymKind.IsBuiltin props C10,C14 pure
+//@ ensures result == (k == SymKindBuiltin || k == SymKindSpecialBuiltin)
+
+//@ func Ptr props C14
+//@ ensures result != nil && fresh(result) && *result == v
